@@ -67,6 +67,7 @@ class GenCfg:
     allow_bool_connectives: bool = True
     allow_eq: bool = True
     eq_plant: float = 0.1         # probability of an exact-equality switch on an input in a derivative
+    wide_plant: float = 0.06      # probability of switches on And / Or with 5-9 operands in derivatives
     annotations: bool = True     # units / descriptions / trailing comments
     multi_comp_atoms: bool = True
     deriv_as_var: float = 0.05
@@ -290,6 +291,25 @@ def gen_rel(c: Ctx, vars_, depth):
     return ["rel", c.pick(ops), gen_num_expr(c, vars_, depth), gen_num_expr(c, vars_, depth)]
 
 
+def gen_wide_connective(c: Ctx, vars_, kind):
+    """a WIDE connective (5-9 operands) decided by exactly one operand at a drawn position: the others
+    are comparisons that hold (And) / fail (Or) at every point the generators draw (|values| << 1e4)"""
+    n = c.pick([5, 6, 6, 7, 7, 8, 9])
+    pos = c.i(0, n - 1)
+    ops = []
+    for i in range(n):
+        if i == pos:
+            ops.append(gen_rel(c, vars_, 1))
+            continue
+        v = ["var", c.pick(vars_)]
+        lit = ["num", c.pick(["1e4", "20000", "1e5", "30000.5", "12345", "1e6", "54321.5"])]
+        if kind == "and":
+            ops.append(c.pick([["rel", "Gt", v, ["neg", lit]], ["rel", "Lt", v, lit], ["rel", "Le", ["neg", lit], v], ["rel", "Ge", lit, v]]))
+        else:
+            ops.append(c.pick([["rel", "Lt", v, ["neg", lit]], ["rel", "Gt", v, lit], ["rel", "Ge", ["neg", lit], v], ["rel", "Le", lit, v]]))
+    return [kind] + ops
+
+
 def gen_bool_expr(c: Ctx, vars_, depth):
     if depth <= 1 or not c.cfg.allow_bool_connectives or c.p(0.55):
         return gen_rel(c, vars_, max(1, min(depth, 2)))
@@ -297,22 +317,7 @@ def gen_bool_expr(c: Ctx, vars_, depth):
     if k == 0:
         return ["not", gen_bool_expr(c, vars_, depth - 1)]
     if vars_ and c.p(0.2):
-        # a WIDE connective (5-9 operands) decided by exactly one operand at a drawn position: the others
-        # are comparisons that hold (And) / fail (Or) at every point the generators draw (|values| << 1e4)
-        n = c.pick([5, 6, 6, 7, 7, 8, 9])
-        pos = c.i(0, n - 1)
-        ops = []
-        for i in range(n):
-            if i == pos:
-                ops.append(gen_rel(c, vars_, 1))
-                continue
-            v = ["var", c.pick(vars_)]
-            lit = ["num", c.pick(["1e4", "20000", "1e5", "30000.5"])]
-            if k == 1:
-                ops.append(c.pick([["rel", "Gt", v, ["neg", lit]], ["rel", "Lt", v, lit], ["rel", "Le", ["neg", lit], v], ["rel", "Ge", lit, v]]))
-            else:
-                ops.append(c.pick([["rel", "Lt", v, ["neg", lit]], ["rel", "Gt", v, lit], ["rel", "Ge", ["neg", lit], v], ["rel", "Le", lit, v]]))
-        return ["and" if k == 1 else "or"] + ops
+        return gen_wide_connective(c, vars_, "and" if k == 1 else "or")
     n = c.pick([2, 2, 3, 3, 4])
     return ["and" if k == 1 else "or"] + [gen_bool_expr(c, vars_, depth - 1) for _ in range(n)]
 
@@ -536,6 +541,16 @@ def gen_model(draw, cfg: GenCfg):
             if c.p(0.3):
                 sw[1] = ["rel", "Eq", ["num", lit], ["var", v]]
             a["expr"] = ["bin", "+", a["expr"], sw]
+    if cfg.allow_bool_connectives and cfg.wide_plant and c.p(cfg.wide_plant):
+        # one or two switches on a wide connective (5-9 operands, one of them decisive) in derivatives
+        derivs = [a for a in assigns if a["name"] in {X.deriv_name(s["name"]) for s in states}]
+        inputs = [s["name"] for s in states] + [p["name"] for p in params]
+        for _ in range(c.i(1, 2) if derivs else 0):
+            a = c.pick(derivs)
+            cond = gen_wide_connective(c, inputs, c.pick(["and", "or"]))
+            if c.p(0.15):
+                cond = ["not", cond]
+            a["expr"] = ["bin", "+", a["expr"], ["cond", cond, ["num", c.pick(["125", "0.5"])], ["num", c.pick(["-375", "2.25"])]]]
     # textual order of assignments is independent of the dependency order
     assigns = draw(st.permutations(assigns))
     return {"states": states, "params": params, "assigns": list(assigns)}
